@@ -549,7 +549,9 @@ func (h *Session) Ping6(srcAddr Addr, dstAddr Addr, timeout time.Duration) (err 
 
 	if err = h.ICMP6SendEchoRequest(srcAddr, dstAddr, id, seq); err != nil {
 		icmpTable.Lock()
-		delete(icmpTable.table, id) // do not leave the waiter behind when nothing was sent
+		if icmpTable.table[id] == &msg { // do not leave the waiter behind when nothing was sent
+			delete(icmpTable.table, id)
+		}
 		icmpTable.Unlock()
 		return err
 	}
@@ -560,9 +562,11 @@ func (h *Session) Ping6(srcAddr Addr, dstAddr Addr, timeout time.Duration) (err 
 	case <-time.After(timeout):
 	}
 
-	// in case of timeout, the entry still exist
+	// in case of timeout, the entry still exist; after a reply it is gone and the id may belong to a newer ping
 	icmpTable.Lock()
-	delete(icmpTable.table, id)
+	if icmpTable.table[id] == &msg {
+		delete(icmpTable.table, id)
+	}
 	icmpTable.Unlock()
 
 	if !msg.msgRecv {
@@ -591,7 +595,9 @@ func (h *Session) ping(srcAddr Addr, dstAddr Addr, timeout time.Duration) (err e
 
 	if err = h.ICMP4SendEchoRequest(srcAddr, dstAddr, id, seq); err != nil {
 		icmpTable.Lock()
-		delete(icmpTable.table, id) // do not leave the waiter behind when nothing was sent
+		if icmpTable.table[id] == &msg { // do not leave the waiter behind when nothing was sent
+			delete(icmpTable.table, id)
+		}
 		icmpTable.Unlock()
 		return err
 	}
@@ -602,9 +608,11 @@ func (h *Session) ping(srcAddr Addr, dstAddr Addr, timeout time.Duration) (err e
 	case <-time.After(timeout):
 	}
 
-	// in case of timeout, the entry still exist
+	// in case of timeout, the entry still exist; after a reply it is gone and the id may belong to a newer ping
 	icmpTable.Lock()
-	delete(icmpTable.table, id)
+	if icmpTable.table[id] == &msg {
+		delete(icmpTable.table, id)
+	}
 	icmpTable.Unlock()
 
 	if !msg.msgRecv {
